@@ -204,6 +204,19 @@ CHECKS = {
         'note': TRUST + ' Not decided: that the sequence of lines equals the library\'s for every program and input script.',
         'technique': 'static analysis: format_args site enumeration + backward slicing of interpolated arguments over MIR, char-table coverage',
     },
+    'C01': {
+        'text': 'ONE clause of C01 only - the structural precondition of look-ahead: copy_and_start_patching copies every one '
+                'of the 21 fields of StoryState (and every field of the current Flow, on every path) into the look-ahead '
+                'state or the field is a classified derived cache, and a conditional copy is skipped only after a test on '
+                'that very field; every place that empties the newline snapshot is the sanctioned rewind/commit function or '
+                'is followed by discard_snapshot on every path; rewind replaces the state as a whole; commit and rewind '
+                'both apply the patch unless a background save is active. If a piece of state were missing from the copy, '
+                'effects written after a line end would be lost whenever the look-ahead is committed.',
+        'design_ref': 'DESIGN.md §4 C01',
+        'note': TRUST + ' NOT decided (the bulk of C01): that text, tags, choices and counts equal what the Ink language '
+                'prescribes for every program and choice path - that needs an independent interpreter and execution.',
+        'technique': 'static analysis: field coverage + guard-atom dataflow + CFG must-pass-through over MIR',
+    },
 }
 
 NOT_APPLICABLE = {
